@@ -525,6 +525,19 @@ static Result run_c20(const Case &c) {
         int kd = i < kind.size() ? kind[i] : 0;
         int64_t a = i < arg.size() ? arg[i] : 0, v = i < val.size() ? val[i] : 0;
         size_t paylen = f.size() - HDR;
+        // kinds 4 and 5 re-seal a header edit that validation is specified to ignore for CRC32 fragments (the STORED
+        // mismatch byte, which the library recomputes; the unused checksum words): 5 = that alone (fragment stays valid),
+        // 4 = together with payload damage on the same fragment (two independent conditions on one fragment)
+        bool benign = (kd == 4 || kd == 5) && f[ref::O_CT] == 2;
+        if (kd == 4 || kd == 5) {
+            if (benign) {
+                if ((a >> 3) % 2 == 0) f[ref::O_MISM] = (uint8_t)(1 + v % 255);
+                else ref::put32(&f[ref::O_CHK + 4 * (1 + (v % 7))], 0x01000000u | (uint32_t)v * 2654435761u);
+                ref::reseal(f.data());
+                r.cls("benign_resealed_edit");
+            }
+            kd = kd == 4 ? 1 : 0;
+        }
         if (kd == 1 && paylen > 0) {
             size_t bit = (size_t)a % (paylen * 8);
             if (v % 3 == 0) bit = paylen * 8 - 1 - (size_t)a % std::min<size_t>(paylen * 8, 64);      // a third of the flips land in the last 8 payload bytes
@@ -607,7 +620,7 @@ static Case gen_c20() {
         if (coin(2, 3)) {    // prefer data fragments
             for (int tries = 0; tries < 4 && present[pos] >= g.k; tries++) pos = (int)pick(0, (int64_t)present.size() - 1);
         }
-        kind[pos] = 1 + weighted({5, 3, 2});
+        kind[pos] = 1 + weighted({5, 3, 2, 2, 1});
         arg[pos] = (int)pick(0, 1 << 20);
         val[pos] = (int)pick(0, 1 << 16);
     }
@@ -776,7 +789,7 @@ static void sweep_c19() {
     int shard = (int)opts().shard, ns = (int)opts().nshards, counter = 0;
     for (int be : {ref::B_ISA_V, ref::B_ISA_C})
         for (int k = 1; k < maxn; k++) for (int m = 1; k + m <= maxn; m++) {
-            Config g; g.backend = be; g.k = k; g.m = m; g.hd = m; g.w = (k & 1) ? 8 : 0; g.ct = (m & 1) ? CT_CRC32 : CT_NONE;
+            Config g; g.backend = be; g.k = k; g.m = m; g.hd = m; g.w = (int[]){0, 8, 16, 32, 24, 62}[(k + 2 * m) % 6]; g.ct = (m & 1) ? CT_CRC32 : CT_NONE;
             int n = k + m;
             for (int e = 0; e <= std::min(n, m + 1); e++)
                 for_subsets(n, e, [&](const std::vector<int> &E) {
